@@ -984,6 +984,40 @@ fn grid() {
         for i in 0..n { x.push([i as u8; N]); }
         println!("R vec_reserve_exact_no_move es={} n={} moved={} bound=0", N, n, (x.as_ptr() as usize != p1) as usize);
     }
+    // a Vec with reserved capacity is filled to that capacity through every entry point without moving
+    {
+        let bump = Bump::new();
+        let mut moved = 0usize;
+        let mut cases = 0usize;
+        for cap in [1usize, 2, 3, 7, 8, 9, 33, 100] {
+            for how in 0..12usize {
+                let mut v: BVec<u32> = BVec::with_capacity_in(cap, &bump);
+                let _neighbour = bump.alloc(0u8);
+                let (p0, c0) = (v.as_ptr() as usize, v.capacity());
+                let mut i = 0u32;
+                while v.len() < c0 {
+                    i += 1;
+                    match how {
+                        0 => v.insert(0, i),
+                        1 => { let m = v.len() / 2; v.insert(m, i); }
+                        2 => v.extend_from_slice(&[i]),
+                        3 => v.extend_from_slice_copy(&[i]),
+                        4 => v.extend(std::iter::once(i)),
+                        5 => { let n = v.len() + 1; v.resize(n, i); }
+                        6 => { let m = v.len() / 2; v.splice(m..m, std::iter::once(i)); }
+                        7 => { let mut o = bumpalo::vec![in &bump; i]; v.append(&mut o); }
+                        8 => { let room = c0 - v.len(); v.extend((0..room as u32).map(|k| k + i)); }
+                        9 => { let room = c0 - v.len(); let n = v.len() + room; v.resize(n, i); }
+                        10 => { let room = c0 - v.len(); v.reserve(room); v.push(i); }
+                        _ => { let room = c0 - v.len(); v.try_reserve_exact(room).unwrap(); v.push(i); }
+                    }
+                    if v.as_ptr() as usize != p0 || v.capacity() != c0 { moved += 1; break; }
+                }
+                cases += 1;
+            }
+        }
+        println!("R vec_reserved_no_move_every_entry es=4 cases={} moved={} bound=0", cases, moved);
+    }
     // a String with reserved capacity takes characters of every width up to that capacity without moving
     {
         use std::fmt::Write as _;
@@ -992,7 +1026,7 @@ fn grid() {
         let mut cases = 0usize;
         for cap in 1usize..=24 {
             for ch in ['a', 'é', '€', '𝄞'] {
-                for how in 0..4 {
+                for how in 0..10 {
                     let mut st = bumpalo::collections::String::with_capacity_in(cap, &bump);
                     if how == 3 { st = bumpalo::collections::String::new_in(&bump); st.push('x'); st.reserve(cap); }
                     let _neighbour = bump.alloc(0u8);      // growing in place is not possible
@@ -1001,7 +1035,14 @@ fn grid() {
                         match how {
                             0 | 3 => st.push(ch),
                             1 => { let _ = st.write_char(ch); }
-                            _ => st.extend(std::iter::once(ch)),
+                            2 => st.extend(std::iter::once(ch)),
+                            // every other way of putting characters in, at the front, in the middle and at the end
+                            4 => st.insert(0, ch),
+                            5 => { let mut m = st.len() / 2; while !st.is_char_boundary(m) { m -= 1; } st.insert(m, ch); }
+                            6 => { let mut b = [0u8; 4]; st.insert_str(0, ch.encode_utf8(&mut b)); }
+                            7 => { let mut b = [0u8; 4]; let at = st.len(); st.insert_str(at, ch.encode_utf8(&mut b)); }
+                            8 => { let mut b = [0u8; 4]; st.push_str(ch.encode_utf8(&mut b)); }
+                            _ => { let mut b = [0u8; 4]; let at = st.len(); st.replace_range(at..at, ch.encode_utf8(&mut b)); }
                         }
                         if st.as_ptr() as usize != p0 || st.capacity() != c0 { moved += 1; break; }
                     }
